@@ -1069,6 +1069,35 @@ async fn c14_send(seq: &[Edit]) -> Result<(), (String, String, String)> {
     if mine != want {
         return Err(("the sending replica after its last sync".into(), format!("{mine:?}"), format!("the state the documents describe: {want:?}")));
     }
+    // ... and records the updates with the instants the documents give (they decide later conflicts)
+    for u in want.keys() {
+        let mut expected: Vec<(String, Option<String>, i64)> = Vec::new();
+        for (_, _, seg) in &versions {
+            let doc: serde_json::Value = serde_json::from_slice(seg).unwrap();
+            let list = doc.get("operations").and_then(|x| x.as_array()).cloned().or_else(|| doc.as_array().cloned()).unwrap_or_default();
+            for el in list {
+                if let Some(d) = el.get("Update") {
+                    if d["uuid"].as_str() == Some(u.to_string().as_str()) {
+                        let t = DateTime::parse_from_rfc3339(d["timestamp"].as_str().unwrap_or("")).map_err(|e| (at.clone(), format!("{e}"), "an RFC 3339 timestamp".into()))?;
+                        expected.push((d["property"].as_str().unwrap_or("").to_string(), d["value"].as_str().map(|s| s.to_string()), t.with_timezone(&Utc).timestamp_nanos_opt().unwrap_or(0)));
+                    }
+                }
+            }
+        }
+        let got: Vec<(String, Option<String>, i64)> = fresh
+            .get_task_operations(*u)
+            .await
+            .unwrap()
+            .iter()
+            .filter_map(|o| match o {
+                Operation::Update { property, value, timestamp, .. } => Some((property.clone(), value.clone(), timestamp.timestamp_nanos_opt().unwrap_or(0))),
+                _ => None,
+            })
+            .collect();
+        if got != expected {
+            return Err((at, format!("updates recorded for {u}: {got:?}"), format!("the updates of the documents, with their instants: {expected:?}")));
+        }
+    }
     Ok(())
 }
 
@@ -1097,6 +1126,20 @@ async fn c14_receive(wrapper: bool, variant: usize) -> Result<(), (String, Strin
     }
     if rep.get_task_data(uuid_of(2)).await.unwrap().is_some() {
         return Err((at, "task 2 exists".into(), "created, updated and deleted again".into()));
+    }
+    let want_t = DateTime::parse_from_rfc3339(tsv).unwrap().with_timezone(&Utc);
+    let ts_seen: Vec<DateTime<Utc>> = rep
+        .get_task_operations(uuid_of(1))
+        .await
+        .unwrap()
+        .iter()
+        .filter_map(|o| match o {
+            Operation::Update { property, timestamp, .. } if property == "description" => Some(*timestamp),
+            _ => None,
+        })
+        .collect();
+    if ts_seen != vec![want_t] {
+        return Err((at, format!("the update is recorded at {ts_seen:?}"), format!("at {want_t:?} (timestamp {tsv} of the document)")));
     }
     if variant / 5 == 2 && t.as_ref().and_then(|t| t.get("p \"q\" \\ é").map(|s| s.to_string())).as_deref() != Some("") {
         return Err((at, "escaped property missing".into(), "property `p \"q\" \\ é` = \"\"".into()));
